@@ -38,6 +38,7 @@ def n_enum(tier):
 M = Monitor(
     pid="C05",
     setup=_setup,
+    exhaustive_claim="every (N, batch_size) pair with N in 1..5 (quick) / 1..10 (thorough), batch_size in 2..N+2 and 'full', for each of the five procedures x {plain, baseline+weights}; the system and target values of each grid point are sampled",
     title="Samples are fitted independently; batch size never changes or breaks a result",
     rule=("enumeration: every (N, batch_size) with N in 1..5 (quick) / 1..10 (thorough), batch_size in 2..N+2 and 'full', for "
           "each procedure {gaussian default, gaussian high-accuracy, poisson, excitation, minimize_variance} x {plain, "
